@@ -220,6 +220,8 @@ type Gen struct {
 	Namespaces []string // namespaces hosted by the target server
 	Tables     []string
 	KeysPerTab int
+	forceReps  int // >0: every ( ... )+ group is repeated exactly that often
+	AvoidKinds map[string]bool
 }
 
 func NewGen(r *rand.Rand, namespaces []string) *Gen {
@@ -338,6 +340,9 @@ func (g *Gen) expand(t string) ([]string, []slot) {
 					reps = g.R.Intn(2)
 				} else if toks[j] == ")+" {
 					reps = 1 + g.R.Intn(3)
+					if g.forceReps > 0 {
+						reps = g.forceReps
+					}
 				}
 				if !emit {
 					reps = 0
@@ -394,7 +399,10 @@ var optionWords = []string{"EX", "PX", "NX", "XX", "MATCH", "COUNT", "WITHSCORES
 
 var sepKeys = []string{":", "::", ":::", "ns:", "ns::", ":t:k", "::k", "fz:", "fz::", "fz:t0", "fz:t0:", "fz::k", "one:", "one:t0:", "nokey", ""}
 
-var mutationKinds = []string{"drop", "dropall", "dup", "swap", "shuffle", "empty", "nul", "ff", "crlf", "big64k", "big70k", "longkey", "longfield",
+// "tailbad": a multi-element write whose LAST element is invalid while the
+// earlier ones are fine (the shape that exposes partial writes: the earlier
+// elements are already in the write batch when the command fails).
+var mutationKinds = []string{"tailbad", "bintable", "drop", "dropall", "dup", "swap", "shuffle", "empty", "nul", "ff", "crlf", "big64k", "big70k", "longkey", "longfield",
 	"nons", "notable", "seps", "num", "numslot", "bitoff", "count", "opt", "case", "stale", "extra", "manyargs", "wrongns", "combo"}
 
 func isNumericSlot(k string) bool {
@@ -477,6 +485,43 @@ func (g *Gen) Mutate(c GenCmd, kinds []slot, kind string) GenCmd {
 		return "", s
 	}
 	switch kind {
+	case "tailbad":
+		// corrupt the last element only
+		done := false
+		for i := len(args) - 1; i >= 1 && i >= len(args)-3 && !done; i-- {
+			k := ""
+			if i < len(kinds) {
+				k = kinds[i].kind
+			}
+			switch {
+			case k == "F" || k == "M" || k == "FN":
+				set(i, fill(10241+r.Intn(3)*30000, 'f'))
+				done = true
+			case isNumericSlot(k):
+				set(i, []byte(g.pick("x1", "", "1e400", "NaN", "9223372036854775808", "1 ")))
+				done = true
+			case k == "JSON":
+				set(i, []byte(g.pick("{bad", "", "[1,", "nul")))
+				done = true
+			case strings.HasPrefix(k, "K:"):
+				set(i, []byte(g.pick(string(args[i])+string(fill(10241, 'k')), "nokeysep", "fz:", string(args[i][:bytesIndexOrLen(args[i], ':')])+":notable")))
+				done = true
+			}
+		}
+		if !done {
+			set(len(args)-1, fill(10241, 'f'))
+		}
+	case "bintable":
+		// the table part of the key becomes bytes that are not valid UTF-8 (ns and key stay)
+		i := keyPos()
+		if i > 0 {
+			ns, rest := nsOf(args[i])
+			key := ""
+			if j := strings.IndexByte(rest, ':'); j >= 0 {
+				key = rest[j:]
+			}
+			set(i, []byte(ns+":"+g.pick("\xff\xfe", "t\xc3(", "\x80", "\xf0\x28\x8c\x28", "t0\xff")+key))
+		}
 	case "drop":
 		if len(args) > 1 {
 			i := pos()
@@ -611,7 +656,11 @@ func (g *Gen) Mutate(c GenCmd, kinds []slot, kind string) GenCmd {
 			set(i, []byte(g.pick("nosuchns", "fz-0", "FZ", "fz ", "one-0")+":"+rest))
 		}
 	case "combo":
-		c1 := g.Mutate(GenCmd{Name: c.Name, Args: args}, kinds, mutationKinds[r.Intn(len(mutationKinds)-1)])
+		k1 := mutationKinds[r.Intn(len(mutationKinds)-1)]
+		for tries := 0; g.AvoidKinds[k1] && tries < 50; tries++ {
+			k1 = mutationKinds[r.Intn(len(mutationKinds)-1)]
+		}
+		c1 := g.Mutate(GenCmd{Name: c.Name, Args: args}, kinds, k1)
 		// slot kinds no longer line up after the first mutation: use positional ones only
 		c2 := g.Mutate(c1, nil, g.pick("drop", "dup", "swap", "empty", "nul", "num", "opt", "case", "extra", "big64k"))
 		return GenCmd{Name: c.Name, Kind: "combo", Args: c2.Args}
@@ -621,7 +670,7 @@ func (g *Gen) Mutate(c GenCmd, kinds []slot, kind string) GenCmd {
 
 // value-level kinds are drawn more often than the key-destroying ones
 var weightedKinds = func() []string {
-	heavy := map[string]int{"num": 3, "numslot": 4, "bitoff": 2, "count": 3, "big70k": 2, "longfield": 2, "empty": 2, "nul": 2, "ff": 2, "dup": 2, "opt": 2, "extra": 2, "swap": 2, "combo": 2}
+	heavy := map[string]int{"tailbad": 4, "num": 3, "numslot": 4, "bitoff": 2, "count": 3, "big70k": 2, "longfield": 2, "empty": 2, "nul": 2, "ff": 2, "dup": 2, "opt": 2, "extra": 2, "swap": 2, "combo": 2}
 	var out []string
 	for _, k := range mutationKinds {
 		n := heavy[k]
@@ -637,11 +686,36 @@ var weightedKinds = func() []string {
 
 // Hostile returns a mutated instance of the named command.
 func (g *Gen) Hostile(name string) (GenCmd, bool) {
+	kind := weightedKinds[g.R.Intn(len(weightedKinds))]
+	// bintable (table name not valid UTF-8) hits a listed known finding that
+	// kills the server within seconds: keep it rare
+	for tries := 0; (g.AvoidKinds[kind] || (kind == "bintable" && g.R.Intn(4) != 0)) && tries < 50; tries++ {
+		kind = weightedKinds[g.R.Intn(len(weightedKinds))]
+	}
+	if kind == "tailbad" {
+		if !strings.Contains(templates[name], ")+") {
+			for kind == "tailbad" || g.AvoidKinds[kind] {
+				kind = weightedKinds[g.R.Intn(len(weightedKinds))]
+			}
+		} else {
+			g.forceReps = 2 + g.R.Intn(2)
+		}
+	}
 	v, kinds, ok := g.Valid(name)
+	g.forceReps = 0
 	if !ok {
 		return GenCmd{}, false
 	}
-	return g.Mutate(v, kinds, weightedKinds[g.R.Intn(len(weightedKinds))]), true
+	return g.Mutate(v, kinds, kind), true
+}
+
+func bytesIndexOrLen(b []byte, c byte) int {
+	for i, x := range b {
+		if x == c {
+			return i
+		}
+	}
+	return len(b)
 }
 
 // stateBuilders are the valid writes that build up prior state of every type.
